@@ -191,7 +191,7 @@ func StartWith(parent context.Context, seed uint64, o Opts, initLayers func(e *E
 			sources = append(sources, e.Static)
 			continue
 		}
-		ws := &WSrc{Src{Name: fmt.Sprintf("w%d", i), Init: l}}
+		ws := &WSrc{Src: Src{Name: fmt.Sprintf("w%d", i), Init: l}}
 		e.Srcs = append(e.Srcs, ws)
 		if subst != nil {
 			sources = append(sources, subst(i, ws))
@@ -284,6 +284,17 @@ func (e *Env) Read(client int) (uint64, *Cfg) {
 func (e *Env) Report(ctx context.Context, client, src int, l *Layer, blocking bool) (int, error) {
 	call := e.S.Tick()
 	err := e.Srcs[src].Report(ctx, l, blocking)
+	ret := e.S.Tick()
+	res, es := ClassifyReportErr(err, blocking)
+	e.H.Add(client, In{Kind: OpReport, Src: src, Layer: l, Blocking: blocking}, call, Out{Res: res, Err: es}, ret)
+	return res, err
+}
+
+// ReReport makes source src hand over the identical value object of its
+// previous report (layer l) again, and records it like a report of l.
+func (e *Env) ReReport(ctx context.Context, client, src int, l *Layer, blocking bool) (int, error) {
+	call := e.S.Tick()
+	err := e.Srcs[src].ReReport(ctx, blocking)
 	ret := e.S.Tick()
 	res, es := ClassifyReportErr(err, blocking)
 	e.H.Add(client, In{Kind: OpReport, Src: src, Layer: l, Blocking: blocking}, call, Out{Res: res, Err: es}, ret)
